@@ -110,7 +110,7 @@ def mv_from_bytes():
     return dict(ensures=[C("decodes", "match spec_cov_decode(b@) { Some(c) => res == Ok::<Covenant, DecodeError>(c), None => res is Err }", "C12", "C04")])
 
 def mv_execute():
-    return dict(ensures=[C("runs", "res == spec_exec(*self, *tx, env)", "C10", "C04")])
+    return dict(ensures=[C("runs", "res == spec_exec(*self, *tx, env)", "C10", "C04", det=True)])
 
 def mv_into_bool():
     return dict(ensures=[C("truthy", "res == spec_truthy(self)", "C10", "C04")])
